@@ -20,7 +20,38 @@ def plan_C02(ck):
               nontrivial=cf.nontrivial_world)
 
 
-PLANS = {"C01": plan_C01, "C02": plan_C02}
+def plan_C04(ck):
+    q = ck.tier == "quick"
+    ck.traces(cf.router_cases(ck.seed + 4, 300 if q else 8000, 5 if q else 8, "C04"), ["C04"], tag="c04",
+              nontrivial=cf.nontrivial_world)
+
+
+def plan_C05(ck):
+    q = ck.tier == "quick"
+    ck.traces(cf.router_cases(ck.seed + 5, 200 if q else 6000, 5 if q else 7, "C05", multi=True), ["C05"], tag="c05",
+              nontrivial=cf.nontrivial_world)
+
+
+def plan_C06(ck):
+    q = ck.tier == "quick"
+    ck.traces(cf.state_cases(ck.seed + 6, 150 if q else 4000, 5 if q else 8, "C06"), ["C06"], tag="c06",
+              nontrivial=cf.nontrivial_world)
+
+
+def plan_C19(ck):
+    q = ck.tier == "quick"
+    ck.traces(cf.state_cases(ck.seed + 19, 150 if q else 4000, 5 if q else 8, "C19", extra="basins"), ["C19"], tag="c19",
+              nontrivial=cf.nontrivial_world)
+
+
+def plan_C03(ck):
+    q = ck.tier == "quick"
+    ck.traces(cf.state_cases(ck.seed + 3, 120 if q else 3000, 4 if q else 6, "C03", extra="acc"), ["C03"], tag="c03",
+              nontrivial=cf.nontrivial_world)
+
+
+PLANS = {"C01": plan_C01, "C02": plan_C02, "C03": plan_C03, "C04": plan_C04, "C05": plan_C05, "C06": plan_C06,
+         "C19": plan_C19}
 
 
 def run(prop, tier, seed):
